@@ -194,6 +194,26 @@ static std::string sanitize_cls(std::string s)
 			c = '_';
 	return s;
 }
+// Two class names denote the same violation?  Sanitizer crashes are compared by the innermost json-c function only: the
+// *kind* ASan prints for a wild write (stack-buffer-overflow / unknown-crash / SEGV ...) depends on the address layout of
+// the process, which differs from one fresh process to the next.
+static std::string crash_key(const std::string &c)
+{
+	if (c.compare(0, 11, "crash:asan-") != 0)
+		return c;
+	size_t at = c.find('@');
+	return at == std::string::npos ? std::string("crash:asan") : "crash:asan" + c.substr(at);
+}
+static bool same_class(const std::string &a, const std::string &b)
+{
+	if (a == b)
+		return true;
+	std::string ka = crash_key(a), kb = crash_key(b);
+	if (ka == kb)
+		return true;
+	// one of them without a symbolised json-c frame
+	return ka.compare(0, 10, "crash:asan") == 0 && kb.compare(0, 10, "crash:asan") == 0 && (ka == "crash:asan" || kb == "crash:asan");
+}
 static void mkdirs(const std::string &p)
 {
 	std::string cur;
@@ -781,14 +801,14 @@ static void worker_main(Property &prop, const Args &a, int w, uint64_t start, ui
 			Plan explicit_plan = plan;
 			explicit_plan.ops[(size_t)o.refine_op].faults = o.refine_faults;
 			Outcome oe = execute_plan(prop, explicit_plan);
-			if (oe.violated && sanitize_cls(oe.v.cls) == cls)
+			if (oe.violated && same_class(sanitize_cls(oe.v.cls), cls))
 			{
 				plan = explicit_plan;
 				o = oe;
 			}
 		}
 		Outcome o2 = execute_plan(prop, plan);
-		bool inproc_ok = o2.violated && sanitize_cls(o2.v.cls) == cls && o2.loghash == o.loghash;
+		bool inproc_ok = o2.violated && same_class(sanitize_cls(o2.v.cls), cls) && o2.loghash == o.loghash;
 		Plan best = plan;
 		std::string detail = o.v.detail;
 		long tests = 0;
@@ -799,7 +819,7 @@ static void worker_main(Property &prop, const Args &a, int w, uint64_t start, ui
 			s.deadline = now_s() + 20;
 			s.same = [&](const Plan &c) {
 				Outcome oc = execute_plan(prop, c);
-				if (oc.violated && sanitize_cls(oc.v.cls) == cls)
+				if (oc.violated && same_class(sanitize_cls(oc.v.cls), cls))
 				{
 					detail = oc.v.detail;
 					return true;
@@ -811,7 +831,7 @@ static void worker_main(Property &prop, const Args &a, int w, uint64_t start, ui
 			// in-process shrinking is only sound if the process carries no state from one execution to the next: the minimised plan
 			// must show the same class in a fresh process, otherwise start over from the original plan with fresh processes only
 			IsoResult chk = run_isolated(best);
-			if (!((chk.kind == IsoResult::VIOL || chk.kind == IsoResult::CRASH || chk.kind == IsoResult::HANG) && sanitize_cls(chk.cls) == cls))
+			if (!((chk.kind == IsoResult::VIOL || chk.kind == IsoResult::CRASH || chk.kind == IsoResult::HANG) && same_class(sanitize_cls(chk.cls), cls)))
 			{
 				inproc_ok = false;
 				best = plan;
@@ -843,7 +863,7 @@ static void worker_main(Property &prop, const Args &a, int w, uint64_t start, ui
 					write_file(hpath, hp.to_text());
 					IsoResult h1 = run_replay_file(prop.id(), hpath, 300);
 					unlink(hpath.c_str());
-					if ((h1.kind == IsoResult::VIOL || h1.kind == IsoResult::CRASH) && sanitize_cls(h1.cls) == cls)
+					if ((h1.kind == IsoResult::VIOL || h1.kind == IsoResult::CRASH) && same_class(sanitize_cls(h1.cls), cls))
 					{
 						found = true;
 						detail = h1.detail;
@@ -879,7 +899,7 @@ static void worker_main(Property &prop, const Args &a, int w, uint64_t start, ui
 			s.deadline = now_s() + 40;
 			s.same = [&](const Plan &c) {
 				IsoResult rc = run_isolated(c);
-				if ((rc.kind == IsoResult::VIOL || rc.kind == IsoResult::CRASH || rc.kind == IsoResult::HANG) && sanitize_cls(rc.cls) == cls)
+				if ((rc.kind == IsoResult::VIOL || rc.kind == IsoResult::CRASH || rc.kind == IsoResult::HANG) && same_class(sanitize_cls(rc.cls), cls))
 				{
 					detail = rc.detail;
 					return true;
@@ -1491,13 +1511,13 @@ int driver_main(int argc, char **argv)
 						sk.cfg_defaults = prop.cfg_defaults();
 						bool seen_class = false;
 						for (auto &pv : viols)
-							if (pv.cls == cls)
+							if (same_class(pv.cls, cls))
 								seen_class = true;
 						sk.budget = seen_class ? 0 : 250; // one minimised replay per class is enough
 						sk.deadline = now_s() + 45;
 						sk.same = [&](const Plan &c) {
 							IsoResult rc = run_isolated(c);
-							if ((rc.kind == IsoResult::VIOL || rc.kind == IsoResult::CRASH || rc.kind == IsoResult::HANG) && sanitize_cls(rc.cls) == cls)
+							if ((rc.kind == IsoResult::VIOL || rc.kind == IsoResult::CRASH || rc.kind == IsoResult::HANG) && same_class(sanitize_cls(rc.cls), cls))
 							{
 								detail = rc.detail;
 								return true;
@@ -1547,15 +1567,15 @@ int driver_main(int argc, char **argv)
 	std::vector<std::string> viol_lines;
 	std::map<std::string, ViolRec> by_class;
 	for (auto &v : viols)
-		if (!by_class.count(v.cls))
-			by_class[v.cls] = v;
+		if (!by_class.count(crash_key(v.cls)))
+			by_class[crash_key(v.cls)] = v;
 	size_t unlisted = 0;
 	for (auto &kv : by_class)
 	{
 		ViolRec &v = kv.second;
 		IsoResult r1 = run_replay_file(prop.id(), v.path), r2 = run_replay_file(prop.id(), v.path);
-		bool ok = (r1.kind == IsoResult::VIOL || r1.kind == IsoResult::CRASH || r1.kind == IsoResult::HANG) && sanitize_cls(r1.cls) == v.cls &&
-		          r2.kind == r1.kind && r2.cls == r1.cls && r1.hash == r2.hash;
+		bool ok = (r1.kind == IsoResult::VIOL || r1.kind == IsoResult::CRASH || r1.kind == IsoResult::HANG) && same_class(sanitize_cls(r1.cls), v.cls) &&
+		          r2.kind == r1.kind && same_class(r2.cls, r1.cls) && r1.hash == r2.hash;
 		if (!ok)
 		{
 			machinery_errors.push_back("replay gate failed for " + v.path + ": expected " + v.cls + ", fresh replays gave " + r1.cls + "/" + hex64(r1.hash) + " and " + r2.cls + "/" + hex64(r2.hash));
